@@ -105,6 +105,34 @@ example : elements witnessDoc none =
 example : localName [119, 58, 100, 111, 99, 117, 109, 101, 110, 116] ≠ sBody ∧ localName [119, 58, 98, 111, 100, 121] = sBody
     ∧ noBodyList [wP [wR [wT [65]]]] = true := by decide
 
+/-! Block-level containers of the body. `body_interleave` speaks about the DIRECT `p` / `tbl`
+children of the body, because that is what `xml.Unmarshal` collects (`bodyXML`: struct tags
+`p` and `tbl`) and what the second pass pairs. A paragraph that sits in a block-level content
+control (`w:sdt` / `w:sdtContent`: a cover page, a table of contents, a rich-text control
+around whole paragraphs) or in `w:customXml` is body content of the document all the same,
+and the readers present none of it: known finding `C16/docx-block-container-content-lost`
+(harness/c16 structure.go, fixed witnesses 18 and 19). The blocks around the container keep
+their order - that part is `body_interleave`. -/
+def wSdt (kids : List Node) : Node :=
+  .elem [119, 58, 115, 100, 116] []
+    [.elem [119, 58, 115, 100, 116, 80, 114] [] [],
+     .elem [119, 58, 115, 100, 116, 67, 111, 110, 116, 101, 110, 116] [] kids]
+def boxedDoc : Node :=
+  .elem [119, 58, 100, 111, 99, 117, 109, 101, 110, 116] []
+    [.elem [119, 58, 98, 111, 100, 121] []
+      [wP [wR [wT [65]]], wSdt [wP [wR [wT [66]]]], wTbl [[wP [wR [wT [67]]]]], wP [wR [wT [68]]], wP [wR [wT [69]]],
+       .elem [119, 58, 115, 101, 99, 116, 80, 114] [] []]]
+
+/-- **docx_block_container_content_lost_counterexample**. The body `A`, content control
+holding the paragraph `B`, table `C`, `D`, `E`: the reader's element list is `A`, table `C`,
+`D`, `E` - in source order, and `B` is in no element. -/
+theorem docx_block_container_content_lost_counterexample :
+    elements boxedDoc none =
+      [.para { text := [65], heading := none, list := none },
+       .table [[{ text := [67], colSpan := 1, rowSpan := 1, cont := false }]],
+       .para { text := [68], heading := none, list := none },
+       .para { text := [69], heading := none, list := none }] := by decide +kernel
+
 /-! ### inline content -/
 
 /-- **run_inline_order** (DOCX). The text of a run is assembled child by child in source
